@@ -151,6 +151,10 @@ func g7Captured(al *ssa.Alloc) bool {
 	return false
 }
 
+// g7ParamBinds: parameter of an unexported helper all of whose call sites are known (published by
+// fix7Delegation.bind for the duration of one check) -> the argument values at those sites.
+var g7ParamBinds = map[*ssa.Parameter][]ssa.Value{}
+
 // g7Origins resolves v to the set of values it may carry: through phis, conversions, re-slicing,
 // loads of local cells (the values stored into them, with exact forwarding of the last store in the
 // same block) and loads of closure cells (the values stored in the enclosing function and in sibling
@@ -166,6 +170,15 @@ func g7Origins(v ssa.Value) []ssa.Value {
 		}
 		seen[v] = true
 		switch x := v.(type) {
+		case *ssa.Parameter:
+			// a delegate of a tabled function (fix7): the parameter carries exactly the arguments of
+			// its (enumerated, all in-module) call sites
+			if vals := g7ParamBinds[x]; len(vals) > 0 {
+				for _, a := range vals {
+					walk(a)
+				}
+				return
+			}
 		case *ssa.Phi:
 			for _, e := range x.Edges {
 				walk(e)
